@@ -1,6 +1,8 @@
 package main
 
 import (
+	"runtime"
+	"sort"
 	"bufio"
 	"fmt"
 	"io"
@@ -81,7 +83,7 @@ func (s *Solver) isDefined(id int) bool {
 
 func (s *Solver) ref(t *Term) string {
 	switch t.op {
-	case "const", "true", "false":
+	case "const", "true", "false", "constarr":
 		return t.head(nil)
 	case "var":
 		if !s.isDefined(t.id) {
@@ -149,8 +151,26 @@ func (s *Solver) readAnswer() string {
 }
 
 // Check returns "sat", "unsat" or "unknown" for the current assertions plus extra.
+var qprof map[string]int
+
+func init() {
+	if os.Getenv("GOSYM_PROF") != "" {
+		qprof = map[string]int{}
+	}
+}
+
 func (s *Solver) Check(extra ...*Term) string {
 	s.Queries++
+	if qprof != nil {
+		key := ""
+		for d := 1; d <= 3; d++ {
+			if pc, _, line, ok := runtime.Caller(d); ok {
+				fn := runtime.FuncForPC(pc).Name()
+				key += fmt.Sprintf("%s:%d < ", fn[strings.LastIndex(fn, ".")+1:], line)
+			}
+		}
+		qprof[key]++
+	}
 	t0 := time.Now()
 	defer func() {
 		d := time.Since(t0)
@@ -248,6 +268,23 @@ func parseSMTValue(v string) uint64 {
 }
 
 func (s *Solver) Close() {
+	if qprof != nil {
+		type kv struct {
+			k string
+			v int
+		}
+		var l []kv
+		for k, v := range qprof {
+			l = append(l, kv{k, v})
+		}
+		sort.Slice(l, func(i, j int) bool { return l[i].v > l[j].v })
+		for i, x := range l {
+			if i > 25 {
+				break
+			}
+			fmt.Fprintf(os.Stderr, "QPROF %6d %s\n", x.v, x.k)
+		}
+	}
 	s.send("(exit)")
 	s.in.Flush()
 	s.inc.Close()
